@@ -218,7 +218,7 @@ def reflection_point(ctx, ck):
                           'azimuth phasor' % (kind, norm(v_)[:110], 'x + t cos(a)' if kind == 'linear' else
                                               'sqrt((x + t cos(a))^2 + (y + t sin(a))^2)', '-' if conv < 0 else ''))
         except ValueError as e_:
-            seen[kind] = (False, 'compared position not understood: %s' % e_)
+            raise AnalysisError('%s: the position compared with the media boundaries is not understood: %s' % (FAR, e_))
     ck.floor('boundary forms of the specular-point comparison', len(seen), 2)
     for kind, (ok_, why) in sorted(seen.items()):
         ck.ob(rule, '%s|%s' % (FAR, kind), ok_, f.loc(st), why)
